@@ -45,7 +45,8 @@ def mutate(rng, h):
     elif m == "port":
         h["port"] = rng.choice(JUNK + ["80", 80.0, -5, 0, 65536, 10 ** 12, 10 ** 400])
     elif m == "priority":
-        h["priority"] = rng.choice(JUNK + ["high", float("1e308"), -0.0, 10 ** 400, -(10 ** 400), 2 ** 1024, 2 ** 63])
+        h["priority"] = rng.choice(JUNK + ["high", float("1e308"), -0.0, 10 ** 400, -(10 ** 400), 2 ** 1024, 2 ** 63,
+                                           float("nan"), float("inf"), float("-inf")])        # (what json.dumps writes as NaN / Infinity)
     elif m == "drop":
         h.pop(rng.choice(sorted(h)), None)
     elif m == "extra":
